@@ -57,6 +57,7 @@ def case_gen(draw, files=True):
         case['repeat'] = draw(st.sampled_from([1, 1, 40, 1500, 1500]))
         case['pad'] = draw(st.sampled_from([0, 0, 7, 301]))
         case['open_obj'] = draw(st.sampled_from([None, None, 'plain', 'short']))
+        case['twin'] = draw(st.integers(0, 3)) == 0
         case['encoding'] = draw(st.sampled_from(['utf-8', 'utf-8', 'utf-16', 'utf-32']))
         case['bigitem'] = draw(st.sampled_from([0, 0, 0, 66000, 140000]))
     return case
@@ -174,7 +175,24 @@ def check_files(case):
     try:
         f = os.path.join(d, 'x.json')
         kw = {'open_obj': my_open} if case['open_obj'] else {}
-        w = drive.collect(rx.from_(items).pipe(rjson.dump_to_file(f, compression=comp, encoding=enc, **kw)))
+        if case.get('twin') and not case['open_obj']:
+            # the same live source written to TWO files in one pass (two dump pipelines alive at once)
+            from rx.subject import Subject
+            src = Subject()
+            f2 = os.path.join(d, 'y.json')
+            w = drive.collect(src.pipe(rjson.dump_to_file(f, compression=comp, encoding=enc)))
+            w2 = drive.collect(src.pipe(rjson.dump_to_file(f2, compression=comp, encoding=enc)))
+            for it in items:
+                src.on_next(it)
+            src.on_completed()
+            H.require_clean(w2, 'second dump_to_file on the same source', **ctx)
+            r2 = drive.collect(rjson.load_from_file(f2, compression=comp, encoding=enc)) if os.path.exists(f2) else None
+            if r2 is None:
+                raise Violation('the second json.dump_to_file completed without creating the file', **ctx)
+            H.require_clean(r2, 'load_from_file of the second file written in the same pass', **ctx)
+            compare(items, r2.items, ctx)
+        else:
+            w = drive.collect(rx.from_(items).pipe(rjson.dump_to_file(f, compression=comp, encoding=enc, **kw)))
         H.require_clean(w, 'dump_to_file', **ctx)
         if not os.path.exists(f):
             raise Violation('json.dump_to_file completed without creating the file', **ctx)
@@ -187,7 +205,7 @@ def check_files(case):
     finally:
         shutil.rmtree(d, ignore_errors=True)
     lab = labels_of(case['items'])
-    labels = lab + ['compression:%s' % comp, 'file>64K' if size > 65536 else 'file<=64K', 'open_obj:%s' % case['open_obj'], 'enc:' + enc]
+    labels = lab + (['two-files-one-pass'] if case.get('twin') and not case['open_obj'] else []) + ['compression:%s' % comp, 'file>64K' if size > 65536 else 'file<=64K', 'open_obj:%s' % case['open_obj'], 'enc:' + enc]
     if not items:
         labels.append('no-objects')
     return {'nontrivial': size > 65536 or bool(lab), 'labels': labels}
